@@ -884,9 +884,11 @@ def run(c):
         "`integrate_states = True` (single shooting) is outside the Lean model; such instances are judged by the plain-Python "
         "oracle only (accessors vs extract_results, extract_results vs re-integration of the synthetic DAE, objective vs results)",
     ]
-    from .translate_c15 import gen_accessors
+    from .translate_c15 import gen_accessors, gen_state_at
 
-    c.prove(extra=gen_accessors(c))  # + der_at / __states_times_in / integral translated from the source
+    # + der_at / __states_times_in (second half) / integral (Gen/Accessors.lean) and state_at / __states_times_in
+    #   (first half) / states_in / the de-scaling of extract_results (Gen/StateAt.lean) translated from the source
+    c.prove(extra=gen_accessors(c) + gen_state_at(c))
     rng = c.rng
     # corpus first
     batch = []
@@ -930,9 +932,9 @@ def run(c):
 
 
 def replay(c, rp):
-    from .translate_c15 import gen_accessors
+    from .translate_c15 import gen_accessors, gen_state_at
 
-    c.prove(extra=gen_accessors(c))
+    c.prove(extra=gen_accessors(c) + gen_state_at(c))
     for f in (rp.get("failures", []) + rp.get("correspondence_disagreements", []))[:5]:
         print("replaying", f["what"])
     batch = [check_instance(c, spec, c.rng, 0, fixed_queries=qs, tag=tag) for tag, spec, qs in corpus()]
